@@ -195,6 +195,7 @@ CLASS_DOCS = {
     'F6c': ">>> import sys\n>>> sys.exit(3)\nTraceback (most recent call last):\nSystemExit: 3\n",
     'F6d': ">>> 1 == 1\n1\n",
     'F6e': ">>> x = 5\n    >>> x\n    5\n",
+    'F6f': ">>> b'abc'  # doctest: +ELLIPSIS\nb...\n",
 }
 
 
@@ -270,8 +271,65 @@ def ellipsis_compat(ctx):
                               'want': w, 'got': g, 'theorem_or_correspondence': 'C20_std_ellipsis_accepted on checker._ellipsis_match'}, True)
 
 
+# ---------------------------------------------------------------------------
+# the whole comparison: whatever the standard OutputChecker accepts (no flags, ELLIPSIS, NORMALIZE_WHITESPACE, both - the flags a
+# '# doctest:' directive can switch on), xdoctest's check_output accepts in its default state.  On the implementation, every pair
+# of small texts; the recorded classes F6d / F6f are recognised by predicates
+# ---------------------------------------------------------------------------
+import re as _re
+_PREFIXED = _re.compile(r"(^|\W)[uUbB][rR]?['\"]", _re.M)
+
+
+def _pipeline_worker(args):
+    wants, gots = args
+    import doctest as std
+    from xdoctest import checker, directive
+    oc = std.OutputChecker()
+    rs = directive.RuntimeState()
+    bad, known, n = [], {}, 0
+    flagsets = (0, std.ELLIPSIS, std.NORMALIZE_WHITESPACE, std.ELLIPSIS | std.NORMALIZE_WHITESPACE)
+    for w in wants:
+        want = w + '\n' if w else ''
+        for g in gots:
+            got = g + '\n' if g else ''
+            for fl in flagsets:
+                n += 1
+                if oc.check_output(want, got, fl) and not checker.check_output(got, want, rs):
+                    if (want, got) in (('1\n', 'True\n'), ('0\n', 'False\n')):
+                        known['F6d'] = known.get('F6d', 0) + 1
+                    elif (fl & std.ELLIPSIS) and '...' in want and _PREFIXED.search(got):
+                        known['F6f'] = known.get('F6f', 0) + 1
+                    elif len(bad) < 5:
+                        bad.append((want, got, fl))
+    return n, bad, known
+
+
+def pipeline_compat(ctx):
+    import itertools as it
+    quick = ctx.tier == 'quick'
+    wtoks = ['a', 'b', ' ', '\n', '...', '<BLANKLINE>', "'", 'True', '1'] + ([] if quick else ['\t', 'u', '"', '0', 'False'])
+    gtoks = [t for t in wtoks if t != '<BLANKLINE>']       # a program that prints the marker text itself is not considered
+    W = sorted({''.join(t) for n in range(0, 4) for t in it.product(wtoks, repeat=n)})
+    G = sorted({''.join(t) for n in range(0, 4) for t in it.product(gtoks, repeat=n)})
+    jobs = [(W[i:i + 40], G) for i in range(0, len(W), 40)]
+    total, seen = 0, {}
+    for n, bad, known in common.pmap(_pipeline_worker, jobs):
+        total += n
+        for k, v in known.items():
+            seen[k] = seen.get(k, 0) + v
+        for want, got, fl in bad:
+            if len([v for v in ctx.violations if v['kind'] == 'output-incompatible']) < 5:
+                ctx.violation('output-incompatible', {'what': 'doctest.OutputChecker().check_output(want, got, flags=%d) accepts, xdoctest checker.check_output(got, want) in its default state does not' % fl,
+                              'want': want, 'got': got, 'std_flags': fl, 'theorem_or_correspondence': 'C20 on checker.check_output (standard OutputChecker as oracle)'}, True)
+    ctx.evaluations += total
+    ctx.count('output_pairs_x_flags', total)
+    for k, v in seen.items():
+        ctx.count('output_pairs_in_known_class_' + k, v)
+
+
 def run(ctx):
     ellipsis_compat(ctx)
+    pipeline_compat(ctx)
     rng = ctx.rng('std')
     docs = [gen_doctest(rng) for _ in range(2500 if ctx.tier == 'quick' else 40000)]
     chunks = [docs[i:i + 100] for i in range(0, len(docs), 100)]
@@ -316,12 +374,22 @@ def run(ctx):
     ctx.sample({'doctest': docs[1]})
     ctx.sample({'doctest': docs[-1]})
     ctx.assumptions += ['Guard20: the generator avoids the recorded classes F6 (an expression example that both prints and has a non-None value), F6b (expected SyntaxError at compile time), '
-                        'F6c (expected SystemExit), F6d (True accepted for 1), F6e (adjacent examples of different indentation); they are re-evaluated separately every run',
+                        'F6c (expected SystemExit), F6d (True accepted for 1), F6e (adjacent examples of different indentation), F6f (prefix letter in front of a wildcard); they are re-evaluated separately every run',
                         'the standard library doctest module of CPython 3.12 is the oracle']
 
 
 def replay(path):
     d = json.load(open(path))
+    if d.get('kind') == 'output-incompatible':
+        import doctest as std
+        from xdoctest import checker, directive
+        sv = bool(std.OutputChecker().check_output(d['want'], d['got'], d['std_flags']))
+        xv = bool(checker.check_output(d['got'], d['want'], directive.RuntimeState()))
+        print('want=%r got=%r flags=%r: standard=%s xdoctest=%s' % (d['want'], d['got'], d['std_flags'], sv, xv))
+        if sv and not xv:
+            print('VIOLATION property=C20 replay=%s' % path)
+            return 1
+        return 0
     if 'want' in d and 'got' in d:
         import doctest as std
         from xdoctest import checker
